@@ -180,7 +180,10 @@ func suiteDelete(h *H) {
 				}
 				for _, p := range comps {
 					if !listed[p] {
-						want = excludedBy(rules, p)
+						// decided by the entry's own name: every directory above it is in the list, i.e. was
+						// not excluded by the sender (a list naming a directory its own rules exclude is not one
+						// a sender with these rules produces; the rules are not applied to listed ancestors)
+						want = excludedBy(rules, filepath.Base(p))
 						break
 					}
 				}
